@@ -12,6 +12,8 @@
 -/
 import AcnProofs.Lemmas.EventCoreRun
 import AcnProofs.Lemmas.EventCoreSim
+import AcnProofs.Lemmas.EventCoreQueue
+import AcnProofs.Lemmas.EventCoreNet
 
 namespace Acn.C01
 open Acn Acn.EventCore
@@ -44,7 +46,7 @@ theorem keyLt_strictWeakOrder :
     have e1 : ∀ x y : Event, x.keyEq y = true ↔ x.keyLe y = true ∧ y.keyLe x = true := by
       intro x y; simp [Event.keyEq, Event.keyLe, and_comm]
     rw [e1] at *
-    exact ⟨keyLe_trans h1.1 h2.1, keyLe_trans h2.2 h1.2⟩
+    exact ⟨EventCore.keyLe_trans h1.1 h2.1, EventCore.keyLe_trans h2.2 h1.2⟩
 
 example : (⟨3, .unplug, "a"⟩ : Event).keyLt ⟨3, .plugin, "b"⟩ = true ∧
     (⟨3, .plugin, "b"⟩ : Event).keyLt ⟨3, .recompute, "r"⟩ = true ∧
@@ -290,6 +292,157 @@ example : ∃ c c1, run cfg0 noFail noFail 3 (init cfg0) = (c, none) ∧ eventsS
   obtain ⟨c, c1, h1, _, h2, h3⟩ := connected_iff cfg0_valid (sched := noFail) (apply := noFail)
     (fun _ => rfl) (fun _ => rfl) 3 (by decide)
   exact ⟨c, c1, h1, h2, (h3 _ _).2 (by simp [cfg0]), (h3 _ _).2 (by simp [cfg0])⟩
+
+/-! ### independence of the queue implementation (ties C01 to C11)
+
+  `bodyQ` / `runQ` (`AcnModel/EventCoreQ.lean`) are the same loop over an arbitrary queue
+  implementation `ops`.  `QOps.Ok ops good` says that `ops` meets C11's queue specification
+  (`QSpec.Cur` for `get_current_events`, `add_event` adds exactly the event) up to the order in
+  which it stores the pending events.  All theorems above are about the final / loop-head state
+  through `Inv`, so they hold verbatim for every such queue — in particular for the
+  transcription of CPython's array heap (`heapQ`), whose choice among equal keys is the real one. -/
+
+/-- the queue of the model is an instance of C11's specification: `popCurrent` is a
+    `get_current_events` step and the push of the unplug event an `add_event` step -/
+theorem canonical_queue_meets_spec (s : QSpec.State) (t : Nat) (x : Session) :
+    QSpec.Step s (.getCurrent t) (.events (popCurrent t s.pending).1)
+      { pending := (popCurrent t s.pending).2, timestep := t } ∧
+    QSpec.Step s (.add (unplugEv x)) .unit { s with pending := s.pending ++ [unplugEv x] } :=
+  ⟨popCurrent_step s t, push_step s x⟩
+
+/-- `body_preserves_Inv` for every queue implementation that meets the specification -/
+theorem body_preserves_Inv_any_queue {cfg : Cfg} (hv : Valid cfg) {ops : QOps} {good : List Event → Prop}
+    (hq : ops.Ok good) {sched apply : Core → Option Err} (hs : ∀ c, sched c = none)
+    (ha : ∀ c, apply c = none) {t : Nat} {c : Core} (hI : Inv cfg t c) (hG : good c.pending) :
+    ∃ c', bodyQ ops cfg sched apply c = (c', none) ∧ Inv cfg (t + 1) c' ∧ good c'.pending :=
+  bodyQ_ok hv hq hs ha hI hG
+
+/-- `run_terminates` for every queue implementation that meets the specification: the final state
+    satisfies `Inv cfg (horizon cfg)`, hence `plugged_once`, `unplugged_once`, `history_sorted`,
+    `history_complete`, `ev_history_keys`, `all_vacant_at_end` apply to it as they stand -/
+theorem run_terminates_any_queue {cfg : Cfg} (hv : Valid cfg) {ops : QOps} {good : List Event → Prop}
+    (hq : ops.Ok good) {sched apply : Core → Option Err} (hs : ∀ c, sched c = none)
+    (ha : ∀ c, apply c = none) (n : Nat) (hn : horizon cfg ≤ n) :
+    ∃ c, runQ ops cfg sched apply n (initQ ops cfg) = (c, none) ∧ c.pending = [] ∧ c.resolve = false ∧
+      c.iter = horizon cfg ∧ Inv cfg (horizon cfg) c := by
+  obtain ⟨h0, g0⟩ := initQ_inv hv hq
+  obtain ⟨c, hr, hI⟩ := runQ_spec hv hq hs ha n 0 (initQ ops cfg) h0 g0 (Nat.zero_le _)
+  rw [Nat.min_eq_right (by omega)] at hI
+  have hp : c.pending = [] := by
+    by_contra h
+    exact absurd ((pending_ne_nil_iff hv hI).1 h) (lt_irrefl _)
+  exact ⟨c, hr, hp, hI.resolve, hI.iter, hI⟩
+
+/-- C01 with CPython's `heapq` (array heap of `AcnModel/Queue.lean`, proved to refine the queue
+    specification in C11) as the event queue: the real tie order, not a canonical one -/
+theorem run_terminates_real_heap {cfg : Cfg} (hv : Valid cfg) {sched apply : Core → Option Err}
+    (hs : ∀ c, sched c = none) (ha : ∀ c, apply c = none) (n : Nat) (hn : horizon cfg ≤ n) :
+    ∃ c, runQ heapQ cfg sched apply n (initQ heapQ cfg) = (c, none) ∧ c.pending = [] ∧
+      c.iter = horizon cfg ∧ (∀ st, c.occ st = none) ∧
+      (∀ x ∈ cfg.sessions,
+        c.eventHist.filter (fun e => e.kind == .plugin && e.sess == x.id) = [plugEv x] ∧
+        c.eventHist.filter (fun e => e.kind == .unplug && e.sess == x.id) = [unplugEv x]) ∧
+      c.eventHist.Pairwise (fun a b => a.keyLe b = true) := by
+  obtain ⟨c, hr, hp, _, hi, hI⟩ := run_terminates_any_queue hv heapQ_ok hs ha n hn
+  exact ⟨c, hr, hp, hi, all_vacant_at_end hI,
+    fun x hx => ⟨plugged_once hv hI x hx, unplugged_once hv hI x hx⟩, history_sorted hI⟩
+
+/-- the generalised loop instantiated with the canonical queue is the loop of `EventCore.lean` -/
+theorem runQ_canonical_eq_run (cfg : Cfg) (sched apply : Core → Option Err) (n : Nat) (c : Core) :
+    runQ canonQ cfg sched apply n c = run cfg sched apply n c := runQ_canon cfg sched apply n c
+
+example : ∃ c, runQ heapQ cfg0 noFail noFail 50 (initQ heapQ cfg0) = (c, none) ∧ c.iter = 9 ∧
+    c.eventHist.filter (fun e => e.kind == .plugin && e.sess == "b") = [⟨3, .plugin, "b"⟩] := by
+  obtain ⟨c, h1, _, h3, _, h5, _⟩ := run_terminates_real_heap cfg0_valid (sched := noFail) (apply := noFail)
+    (fun _ => rfl) (fun _ => rfl) 50 (by decide)
+  exact ⟨c, h1, by rw [h3]; decide, (h5 ⟨"b", "S0", 3, 5⟩ (by simp [cfg0])).1⟩
+
+/-! ### independence of the charging network (ties C01 to C19)
+
+  `bodyG` / `runG` (`AcnModel/EventCoreG.lean`) are the same loop with the network operations
+  `network.plugin` / `network.unplug` as a parameter (`chargingNet` = `ChargingNetwork`, for which
+  `bodyG` is `body`: `bodyG_charging`).  If the network never raises on the scenario's sessions —
+  e.g. a stochastic network that assigns the spaces itself — termination, the final iteration and
+  everything C01 says about `event_history` hold under `ValidQ`: distinct ids, `0 ≤ arrival <
+  departure`; NO per-station non-overlap clause. -/
+
+theorem run_terminates_any_network {σ : Type} {cfg : Cfg} (hq : ValidQ cfg) {ops : QOps}
+    {good : List Event → Prop} (hops : ops.Ok good) {net : NetOps σ} {P : σ → Prop}
+    (hnet : net.NoFail cfg P) {sched apply : CoreG σ → Option Err} (hs : ∀ g, sched g = none)
+    (ha : ∀ g, apply g = none) (net0 : σ) (hN : P net0) (n : Nat) (hn : horizon cfg ≤ n) :
+    ∃ g, runG ops net cfg sched apply n (initG ops cfg net0) = (g, none) ∧ g.core.pending = [] ∧
+      g.core.resolve = false ∧ g.core.iter = horizon cfg ∧
+      -- history_sorted
+      g.core.eventHist.Pairwise (fun a b => a.keyLe b = true) ∧
+      -- history_complete
+      g.core.eventHist.Perm
+        (cfg.sessions.map plugEv ++ cfg.sessions.map unplugEv ++ cfg.recomputes.map recEv) ∧
+      -- plugged_once / unplugged_once
+      (∀ x ∈ cfg.sessions,
+        g.core.eventHist.filter (fun e => e.kind == .plugin && e.sess == x.id) = [plugEv x] ∧
+        g.core.eventHist.filter (fun e => e.kind == .unplug && e.sess == x.id) = [unplugEv x]) ∧
+      g.core.evHist.Perm (cfg.sessions.map (·.id)) := by
+  obtain ⟨h0, g0⟩ := initG_inv (σ := σ) hq hops net0
+  obtain ⟨g, hr, hI⟩ := runG_spec hq hops hnet hs ha n 0 (initG ops cfg net0) h0 g0 hN (Nat.zero_le _)
+  rw [Nat.min_eq_right (by omega)] at hI
+  have hp : g.core.pending = [] := by
+    by_contra h
+    exact absurd ((pendingG_ne_nil_iff hq hI).1 h) (lt_irrefl _)
+  have hv' := valid_relabel hq
+  have hI' := hI.toInv_at_horizon
+  have hc := history_complete hv' hI'
+  have hk := (ev_history_keys hv' hI').2
+  refine ⟨g, hr, hp, hI.resolve, hI.iter, hI.hist_sorted, ?_, ?_, ?_⟩
+  · have e1 : (relabel cfg).sessions.map plugEv = cfg.sessions.map plugEv := by
+      simp only [relabel, List.map_map]; exact List.map_congr_left (fun x _ => rfl)
+    have e2 : (relabel cfg).sessions.map unplugEv = cfg.sessions.map unplugEv := by
+      simp only [relabel, List.map_map]; exact List.map_congr_left (fun x _ => rfl)
+    rw [e1, e2] at hc
+    exact hc
+  · intro x hx
+    have hx' : own x ∈ (relabel cfg).sessions := List.mem_map.2 ⟨x, hx, rfl⟩
+    exact ⟨plugged_once hv' hI' (own x) hx', unplugged_once hv' hI' (own x) hx'⟩
+  · simpa [relabel, List.map_map, Function.comp_def, own] using hk
+
+/-- the two facts C19's `eventCore_history_wellFormed` asks for, for any network that does not
+    raise and any conforming queue -/
+theorem history_sorted_complete_any_network {σ : Type} {cfg : Cfg} (hq : ValidQ cfg) {ops : QOps}
+    {good : List Event → Prop} (hops : ops.Ok good) {net : NetOps σ} {P : σ → Prop}
+    (hnet : net.NoFail cfg P) {sched apply : CoreG σ → Option Err} (hs : ∀ g, sched g = none)
+    (ha : ∀ g, apply g = none) (net0 : σ) (hN : P net0) (n : Nat) (hn : horizon cfg ≤ n) :
+    (runG ops net cfg sched apply n (initG ops cfg net0)).2 = none ∧
+    (runG ops net cfg sched apply n (initG ops cfg net0)).1.core.eventHist.Pairwise
+      (fun a b => a.keyLe b = true) ∧
+    (runG ops net cfg sched apply n (initG ops cfg net0)).1.core.eventHist.Perm
+      (cfg.sessions.map plugEv ++ cfg.sessions.map unplugEv ++ cfg.recomputes.map recEv) := by
+  obtain ⟨g, hr, _, _, _, h1, h2, _⟩ := run_terminates_any_network hq hops hnet hs ha net0 hN n hn
+  rw [hr]; exact ⟨rfl, h1, h2⟩
+
+/-- `ChargingNetwork` + canonical queue: the generalised loop is the loop of `EventCore.lean` -/
+theorem bodyG_chargingNet_eq_body (cfg : Cfg) (sched apply : Core → Option Err)
+    (g : CoreG (String → Option Session)) :
+    (ofG (bodyG canonQ (chargingNet cfg.stations) cfg (fun g => sched (ofG g)) (fun g => apply (ofG g)) g).1,
+     (bodyG canonQ (chargingNet cfg.stations) cfg (fun g => sched (ofG g)) (fun g => apply (ofG g)) g).2)
+      = body cfg sched apply (ofG g) := bodyG_charging cfg sched apply g
+
+/-- a scenario with OVERLAPPING sessions on one station (not `Valid`) satisfies `ValidQ` -/
+def cfg1 : Cfg :=
+  { stations := ["S0"], sessions := [⟨"a", "S0", 0, 4⟩, ⟨"b", "S0", 1, 3⟩, ⟨"c", "S0", 1, 4⟩],
+    recomputes := [(1, "r0")], maxRecompute := none }
+
+theorem cfg1_validQ : ValidQ cfg1 := by
+  constructor <;> simp [cfg1]
+
+/-- a network that admits everybody (state: number of connected EVs) -/
+def countingNet : NetOps Nat := { plugin := fun n _ => (n + 1, none), unplug := fun n _ => (n - 1, none) }
+
+example : ∃ g, runG heapQ countingNet cfg1 (fun _ => none) (fun _ => none) 20 (initG heapQ cfg1 0) = (g, none) ∧
+    g.core.iter = 5 ∧ g.core.eventHist.Pairwise (fun a b => a.keyLe b = true) := by
+  obtain ⟨g, h1, _, _, h3, h4, _⟩ := run_terminates_any_network cfg1_validQ heapQ_ok
+    (net := countingNet) (P := fun _ => True)
+    ⟨fun _ _ _ _ => ⟨rfl, trivial⟩, fun _ _ _ _ => ⟨rfl, trivial⟩⟩
+    (sched := fun _ => none) (apply := fun _ => none) (fun _ => rfl) (fun _ => rfl) 0 trivial 20 (by decide)
+  exact ⟨g, h1, by rw [h3]; decide, h4⟩
 
 /-! ### lifting to the full simulator model -/
 
